@@ -364,22 +364,32 @@ impl PrivateBatchProver {
 ///   so proving it only burns the proving window. The intentional all-dummy
 ///   padding template is built on the circuit-build path, which fills the
 ///   witness directly and never calls this. Mirrors
-///   `ensure_private_batch_compatible` at the public-batch layer.
+///   `ensure_private_batch_compatible` at the public-batch layer,
+/// - every grouped exit sum must fit in a `u32`: the circuit groups the
+///   `(exit_account, output_amount)` pairs of both outputs of every slot by
+///   exit account (dummy slots masked to the zero account with amount 0, so
+///   they contribute nothing) and range-checks each group's sum to 32 bits.
+///   Leaves that are individually valid (each amount `< 2^32`) can pay one
+///   account more than `u32::MAX` in total; without this check such a batch
+///   is accepted here and only fails inside the recursive proving run.
 ///
 /// NOTE: keep in lockstep with the circuit's cross-slot constraints
 /// (`private_batch::circuit::circuit_logic`). The circuit remains the enforcer;
 /// this only improves failure latency and error quality.
 fn ensure_leaf_batch_compatible(proofs: &[ProofWithPublicInputs<F, C, D>]) -> Result<()> {
     use crate::private_batch::circuit::constants::{
-        ASSET_ID_START, BLOCK_HASH_START, NULLIFIER_START, VOLUME_FEE_BPS_START,
+        ASSET_ID_START, BLOCK_HASH_START, EXIT_1_START, EXIT_2_START, NULLIFIER_START,
+        OUTPUT_AMOUNT_1_START, OUTPUT_AMOUNT_2_START, VOLUME_FEE_BPS_START,
     };
-    use std::collections::HashMap;
+    use std::collections::{BTreeMap, HashMap};
 
     struct LeafMeta {
         asset_id: u64,
         volume_fee_bps: u64,
         block_hash: [u64; 4],
         nullifier: [u64; 4],
+        /// `(exit_account, output_amount)` of output 1 and output 2.
+        exits: [([u64; 4], u64); 2],
     }
     // PI lengths were validated by the caller.
     let metas: Vec<LeafMeta> = proofs
@@ -392,6 +402,18 @@ fn ensure_leaf_batch_compatible(proofs: &[ProofWithPublicInputs<F, C, D>]) -> Re
             }),
             nullifier: core::array::from_fn(|i| {
                 proof.public_inputs[NULLIFIER_START + i].to_canonical_u64()
+            }),
+            exits: [
+                (EXIT_1_START, OUTPUT_AMOUNT_1_START),
+                (EXIT_2_START, OUTPUT_AMOUNT_2_START),
+            ]
+            .map(|(exit_start, amount_start)| {
+                (
+                    core::array::from_fn(|i| {
+                        proof.public_inputs[exit_start + i].to_canonical_u64()
+                    }),
+                    proof.public_inputs[amount_start].to_canonical_u64(),
+                )
             }),
         })
         .collect();
@@ -454,6 +476,33 @@ fn ensure_leaf_batch_compatible(proofs: &[ProofWithPublicInputs<F, C, D>]) -> Re
         bail!(
             "every supplied leaf proof is all-dummy (block_hash == 0): such a batch \
              settles nothing; supply at least one real leaf proof"
+        );
+    }
+
+    // Grouped exit sums, computed the way the circuit computes them: both
+    // (exit_account, output_amount) pairs of every NON-dummy proof are summed
+    // per exit account. Dummy slots (including the padding added after this
+    // check) are masked in-circuit to (zero account, 0) and add nothing to any
+    // group, so they are skipped here. u128 cannot overflow: commit bounds
+    // the vector by the batch size, so at most 2 * MAX_PROOF_COUNT u64 terms
+    // are added.
+    let mut exit_sums: BTreeMap<[u64; 4], u128> = BTreeMap::new();
+    for meta in metas.iter().filter(|meta| meta.block_hash != [0u64; 4]) {
+        for (exit_account, output_amount) in meta.exits {
+            *exit_sums.entry(exit_account).or_insert(0) += u128::from(output_amount);
+        }
+    }
+    if let Some((exit_account, sum)) = exit_sums
+        .iter()
+        .find(|(_, sum)| **sum > u128::from(u32::MAX))
+    {
+        bail!(
+            "grouped exit sum {} for exit account {:?} exceeds u32::MAX ({}); the private-batch \
+             circuit range-checks every per-account output sum to 32 bits, so this batch \
+             would only fail after the expensive recursive proving run",
+            sum,
+            exit_account,
+            u32::MAX
         );
     }
     Ok(())
